@@ -555,6 +555,15 @@ def getIdentifierReference : Nat → Option Nat → String → M Ref
 
 def stashFuel : M Nat := fun σ => .ok (σ.stashes.length + 1) σ
 
+/-- the stash in which getIdentifierReference finds the name -/
+def identStash : Nat → Option Nat → String → M (Option Nat)
+  | 0, _, _ => pure none
+  | _+1, none, _ => pure none
+  | n+1, some i, name => do
+    let has ← hasBinding i name
+    if has then pure (some i)
+    else do let σ ← getSt; identStash n (stashOuter σ i) name
+
 /-- what the harness's setter logs of its argument: numbers and strings by value, anything else by its typeof -/
 def accValTok (σ : St) (v : V) : String :=
   match v with
@@ -1006,8 +1015,16 @@ def evalE : Nat → FE → M MV
         | _ => do let c ← evalE n f; let v ← resolve c; pure (MV.val v))
       let vl ← resolve callee                        -- 11.2.3 step 2: GetValue of the callee, before the arguments
       let argumentList ← evalArgs n args
+      -- stash.go objectStash.newReference: `ref.noThis = !s.provideThis`: a name found in the GLOBAL stash (the only
+      -- objectStash that no with statement made) gives no this value (type_reference.go thisValue)
+      let noThis ← (match f with
+        | .var x => do
+          let sc ← curScope
+          let j ← identStash (← stashFuel) (some sc.lexical) x
+          pure (j == some globalStash)
+        | _ => pure false)
       let this : V := match callee with
-        | .ref (.prop (some b) _) => .ref b          -- this = rf.thisValue() = objectValue(rf.base)
+        | .ref (.prop (some b) _) => if noThis then .undef else .ref b   -- rf.thisValue()
         | .ref (.pprop _ _ primitive) => primitive   -- … or the primitive base itself (type_reference.go:24)
         | _ => .undef                                -- stashReference, plain value
       let σ ← getSt
@@ -1043,6 +1060,9 @@ def evalE : Nat → FE → M MV
       let _ ← newObject                                                                  -- result := rt.newObject()
       let o ← newNodeFunction f sc.lexical                                               -- rt.newNodeFunction(…, rt.scope.lexical)
       pure (.val (.ref o))                                                               -- …getOwnPropertyDescriptor(…).get / .set
+    | .hostFn => do                                                                  -- a function made by vm.Set
+      let o ← allocObj (nativeFn "hostThis" 0)
+      pure (.val (.ref o))
     | .fnCtor f => do                                                                -- builtin_function.go:32 builtinNewFunctionNative
       let o ← newNodeFunction f globalStash                                              -- :49 … rt.globalStash
       pure (.val (.ref o))
@@ -1237,6 +1257,14 @@ def nativeCall : Nat → String → V → List V → M V
   | n+1, name, this, args => do
     let σ ← getSt
     if name = "proto" then pure .undef           -- Function.prototype itself accepts anything and returns undefined
+    else if name = "hostThis" then                -- the harness's host function: FunctionCall.This as it arrives
+      pure (.str (match this with
+        | .undef => "undefined" | .null => "null"
+        | .str s => "string:" ++ s
+        | .num k => "number:" ++ toString k
+        | .nan => "number:NaN"
+        | .bool b => "boolean:" ++ (if b then "true" else "false")
+        | .ref _ => if isCall σ this then "function" else "object"))
     else if !isCall σ this then throwErr "TypeError"
     else match this with
       | .ref thisObject =>
@@ -1249,9 +1277,11 @@ def nativeCall : Nat → String → V → List V → M V
            | .null => callObj n thisObject this' []
            | .ref arr => do
              let len ← objGet arr "length"
-             let k : Nat := match len with | .num l => l.toNat | _ => 0
-             let vals ← applyArgs arr k 0
-             callObj n thisObject this' vals
+             let k : Nat := toUint32 len                                        -- builtin_function.go:93 toUint32
+             if k > 500000 then throwErr "RangeError"                           -- :94 maxArgumentListLength
+             else do
+               let vals ← applyArgs arr k 0
+               callObj n thisObject this' vals
            | _ => throwErr "TypeError")
         else if name = "bind" then do
           let b ← newBoundFunction thisObject this' (args.drop 1)
